@@ -99,6 +99,10 @@ where
     // only allow each counter to be zeroed once per trigger_events call
     counter_zeroed_once: (bool, bool),
     framework_start: T,
+    #[cfg(feature = "verif")]
+    verif_log: Vec<crate::verif::Step>,
+    #[cfg(feature = "verif")]
+    verif_budget: usize,
 }
 
 impl<M, R, T> Framework<M, R, T>
@@ -169,12 +173,21 @@ where
             normal_sent_packets: 0,
             signal_pending: None,
             counter_zeroed_once: (false, false),
+            #[cfg(feature = "verif")]
+            verif_log: Vec::new(),
+            #[cfg(feature = "verif")]
+            verif_budget: usize::MAX,
         };
 
         for (runtime, machine) in s.runtime.iter_mut().zip(s.machines.as_ref().iter()) {
             if let Some(action) = machine.states[0].action {
                 runtime.state_limit = action.sample_limit(&mut s.rng);
             }
+        }
+        #[cfg(feature = "verif")]
+        for mi in 0..s.runtime.len() {
+            let limit = s.runtime[mi].state_limit;
+            s.verif_step(crate::verif::Step::Limit { machine: mi, limit });
         }
 
         Ok(s)
@@ -208,6 +221,9 @@ where
         events: &[TriggerEvent],
         current_time: T,
     ) -> impl Iterator<Item = &TriggerAction<T>> {
+        #[cfg(feature = "verif")]
+        self.verif_log.clear();
+
         // reset all actions
         self.actions.fill(None);
 
@@ -228,6 +244,8 @@ where
         // integrators (NOTE how self.signal_pending is consumed here with
         // take())
         if let Some(signal) = self.signal_pending.take() {
+            #[cfg(feature = "verif")]
+            self.verif_step(crate::verif::Step::SignalRound);
             // keep track of if we should exclude a machine
             let excluded = match signal {
                 SignalTarget::All => None,
@@ -370,6 +388,15 @@ where
     }
 
     fn transition(&mut self, mi: usize, event: Event) -> StateChange {
+        #[cfg(feature = "verif")]
+        self.verif_step(crate::verif::Step::Deliver {
+            machine: mi,
+            event,
+            from_state: self.runtime[mi].current_state,
+            state_limit: self.runtime[mi].state_limit,
+            counter_a: self.runtime[mi].counter_a,
+            counter_b: self.runtime[mi].counter_b,
+        });
         // a machine in end state cannot transition
         if self.runtime[mi].current_state == STATE_END {
             return StateChange::Unchanged;
@@ -382,6 +409,12 @@ where
             let state = &machine.states[self.runtime[mi].current_state];
             state.sample_state(event, &mut self.rng)
         };
+
+        #[cfg(feature = "verif")]
+        self.verif_step(crate::verif::Step::Sampled {
+            machine: mi,
+            next: next_state,
+        });
 
         // if no next state on event, done
         let Some(next_state) = next_state else {
@@ -421,6 +454,11 @@ where
                     } else {
                         STATE_LIMIT_MAX
                     };
+                    #[cfg(feature = "verif")]
+                    self.verif_step(crate::verif::Step::Limit {
+                        machine: mi,
+                        limit: self.runtime[mi].state_limit,
+                    });
                 }
 
                 // update the counter, possible recursion: we need to update the
@@ -462,6 +500,16 @@ where
             } else {
                 counter_a.sample_value(&mut self.rng)
             };
+            #[cfg(feature = "verif")]
+            crate::verif::push(
+                &mut self.verif_log,
+                self.verif_budget,
+                crate::verif::Step::CounterOperand {
+                    machine: mi,
+                    counter_b: false,
+                    value: change,
+                },
+            );
 
             let updated_value_a = &mut self.runtime[mi].counter_a;
             match counter_a.operation {
@@ -488,6 +536,16 @@ where
             } else {
                 counter_b.sample_value(&mut self.rng)
             };
+            #[cfg(feature = "verif")]
+            crate::verif::push(
+                &mut self.verif_log,
+                self.verif_budget,
+                crate::verif::Step::CounterOperand {
+                    machine: mi,
+                    counter_b: true,
+                    value: change,
+                },
+            );
 
             let updated_value_b = &mut self.runtime[mi].counter_b;
             match counter_b.operation {
@@ -555,6 +613,8 @@ where
             },
             None => None,
         };
+        #[cfg(feature = "verif")]
+        self.verif_step(crate::verif::Step::Scheduled { machine: mi });
     }
 
     fn decrement_limit(&mut self, mi: usize) {
@@ -567,6 +627,8 @@ where
             if self.runtime[mi].state_limit == 0 && action.has_limit() {
                 // take no action and trigger limit reached
                 self.actions[mi] = None;
+                #[cfg(feature = "verif")]
+                self.verif_step(crate::verif::Step::Withdrawn { machine: mi });
                 // next, we trigger internally event LimitReached
                 self.transition(mi, Event::LimitReached);
             }
@@ -680,6 +742,63 @@ where
 
         // only state-limit left to consider
         runtime.state_limit > 0
+    }
+}
+
+/// Verification hooks, only compiled with the `verif` feature: a per-call log
+/// of internal machine steps with a step budget, and a read-only snapshot of
+/// the runtime state. They do not influence the framework's behaviour.
+#[cfg(feature = "verif")]
+impl<M, R, T> Framework<M, R, T>
+where
+    M: AsRef<[Machine]>,
+    R: RngCore,
+    T: crate::time::Instant,
+{
+    fn verif_step(&mut self, step: crate::verif::Step) {
+        crate::verif::push(&mut self.verif_log, self.verif_budget, step);
+    }
+
+    /// The internal steps of the most recent call to `trigger_events` (or of
+    /// `new`, before the first call).
+    pub fn verif_log(&self) -> &[crate::verif::Step] {
+        &self.verif_log
+    }
+
+    /// Panic with [`crate::verif::BUDGET_PANIC`] when a single call logs more
+    /// than `budget` steps.
+    pub fn verif_set_budget(&mut self, budget: usize) {
+        self.verif_budget = budget;
+    }
+
+    /// A copy of the runtime state between calls.
+    pub fn verif_snapshot(&self) -> crate::verif::Snapshot<T> {
+        crate::verif::Snapshot {
+            machines: self
+                .runtime
+                .iter()
+                .map(|r| crate::verif::MachineSnapshot {
+                    current_state: r.current_state,
+                    state_limit: r.state_limit,
+                    padding_sent: r.padding_sent,
+                    normal_sent: r.normal_sent,
+                    blocking_duration: r.blocking_duration,
+                    counter_a: r.counter_a,
+                    counter_b: r.counter_b,
+                })
+                .collect(),
+            current_time: self.current_time,
+            normal_sent_packets: self.normal_sent_packets,
+            padding_sent_packets: self.padding_sent_packets,
+            blocking_duration: self.blocking_duration,
+            blocking_started: self.blocking_started,
+            blocking_active: self.blocking_active,
+            signal_pending: match self.signal_pending {
+                None => None,
+                Some(SignalTarget::All) => Some(None),
+                Some(SignalTarget::AllExcept(mi)) => Some(Some(mi)),
+            },
+        }
     }
 }
 
